@@ -134,6 +134,27 @@ CHECKS = {
                   "implementation",
         engine="hist+fault",
     ),
+    "C18": dict(
+        category="model_checking",
+        text="Closure search over register / register(NaniteFitModel) / "
+             "deregister / load_model_from_file(register in {F,T}) on three "
+             "modules and three files (two sharing a key) against a dict "
+             "reference, to a fixpoint (every history over the alphabet); "
+             "complete enumeration of the single-fault mutants the property "
+             "names (13 missing attributes, 6 list-length faults, duplicate "
+             "name, 4 key-order swaps) through both entry points; loader "
+             "inputs (valid, missing, syntax error, failing inner import, "
+             "raising module, incomplete model) x position of the directory "
+             "on sys.path; same-stem files; file copies of all shipped "
+             "models; every ancillary key x {finite, NaN}.",
+        design_ref="DESIGN.md §2 C18",
+        note="Registry, sys.path and sys.modules are snapshotted and "
+             "restored around every transition.",
+        technique="closure (fixpoint) search of the registry state machine "
+                  "+ complete single-fault mutant enumeration, on the "
+                  "implementation",
+        engine="store",
+    ),
 }
 
 NA_REASON = "check not built yet in this session (under construction; see DESIGN.md §9 work order)"
@@ -172,7 +193,7 @@ def build():
              "kind_free_text": "complete enumeration of a finite input domain on the implementation"},
             {"name": "hist", "path": "mc/hist.py", "serves_properties": ["C03", "C06", "C09", "C10", "C12", "C16"],
              "kind_free_text": "explicit-state breadth-first search over operation histories on real objects (replay from scratch, canonical state hash, per-state and per-transition oracles, merge-soundness and determinism self-checks)"},
-            {"name": "store", "path": "mc/props/c03_store.py", "serves_properties": ["C03"],
+            {"name": "store", "path": "mc/props/c03_store.py", "serves_properties": ["C03", "C18"],
              "kind_free_text": "closure (fixpoint) search of small dictionary-like stores against a reference model"},
         ],
         "checks": checks,
